@@ -127,8 +127,13 @@ class Copy:
         return module
 
 
+REAL = False  # replay processes set this: no shim, no proxies
+
+
 def load_copy(*, stub: bool = True, sym_builtin: bool = True) -> Copy:
     """Import a fresh copy of pest from the working tree."""
+    if REAL:
+        stub = sym_builtin = False
     _ensure_path()
     if stub:
         rxstub.install()
